@@ -136,9 +136,13 @@ impl LruPageCache {
             );
             
             // Copy data from the page
-            let page_end = offset_in_page + bytes_to_copy;
-            if page_end <= page_data.len() {
+            // A short page means end of file: return the bytes that exist, then stop.
+            let page_end = std::cmp::min(offset_in_page + bytes_to_copy, page_data.len());
+            if offset_in_page < page_end {
                 result_buffer.extend_from_slice(&page_data[offset_in_page..page_end]);
+            }
+            if page_data.len() < PAGE_SIZE {
+                break;
             }
             
             current_offset += bytes_to_copy as u64;
